@@ -75,11 +75,30 @@ class Lib:
 # --------------------------------------------------------------------------
 # printer
 # --------------------------------------------------------------------------
+SPELLING_NAMES = ["nested", "dotted_elem", "dotted_attr", "dotted_all"]
+
+
+class Mix:
+    """A spelling that changes from one modification list to the next: site i of
+    the printed text uses SPELLING_NAMES[picks[i % len(picks)]]."""
+
+    def __init__(self, picks):
+        self.picks = list(picks)
+        self.i = 0
+
+    def next(self):
+        s = SPELLING_NAMES[self.picks[self.i % len(self.picks)] % 4]
+        self.i += 1
+        return s
+
+
 def mods_nested(mods, spelling="nested"):
     """Text of a modification list inside parentheses (without them).
     spelling: nested  a(x(start = 1))       dotted_elem  a.x(start = 1)
               dotted_attr a(x.start = 1)    dotted_all   a.x.start = 1"""
     parts = []
+    if isinstance(spelling, Mix):
+        spelling = spelling.next()
     if spelling == "nested":
         # group by first path element, keep first-appearance order
         groups, order = {}, []
